@@ -7,6 +7,10 @@
   `IntervalWF.neverEarly`, `TimerWF`, the guards of `iwiStep` and `toStep`, `TicksOK`).
   Specification: RoModel/Spec/Timed.lean — `Clause cfg trace` (decidable), `accepts := decide ∘ Clause`.
 
+  Second assumption, used only for "silent after cancellation": once `ctx.Done()` is ready the `select`
+  loop takes at most `cancelSlack` (8) more ticks before it takes it (`IntervalWF.selectFair`,
+  `RangeWF.selectFair`, `hfair`): `select` chooses uniformly among ready cases.
+
   (A) model theorems — for every source timeline and every environment that respects "never early":
       the run satisfies the clause (so it is accepted);
   (B) acceptor soundness — `accepts cfg trace = true →` the plain-words statement for the operator;
@@ -61,9 +65,12 @@ theorem range_model_accepted (r : RangeRun) (h : RangeWF r) :
 /-- IntervalWithInitial, PARTIAL (`0 < initial`, `interval ≤ initial`): value k never before
     `initial + k·interval`. The full statement fails on the pinned tree: (C) below. -/
 theorem intervalWithInitial_partial (r : IwiRun) (hi : 0 < r.i) (hp : r.p ≤ r.i)
-    (hstop : ∀ c x, r.stop = some (c, x) → c ≤ x) (tr : TimedTrace) (htr : iwiTrace r = some tr) :
+    (hstop : ∀ c x, r.stop = some (c, x) → c ≤ x)
+    (hfair : ∀ c x s, r.stop = some (c, x) → iwiRunFrom r.sub r.i r.p (iwiInit r.sub r.i) r.evs = some s →
+      (s.out.filter (fun o => decide (c < o.1))).length ≤ cancelSlack)
+    (tr : TimedTrace) (htr : iwiTrace r = some tr) :
     Clause { op := .intervalWithInitial, d := r.p, d2 := r.i } tr :=
-  iwi_model_clause_partial r hi hp hstop tr htr
+  iwi_model_clause_partial r hi hp hstop hfair tr htr
 
 /-- Timeout: error only after a full quiet period measured from the end of the last forwarded Next;
     forwarded notifications are the source's in order; nothing after a terminal -/
@@ -118,6 +125,19 @@ theorem accepted_silent_outside {cfg : Cfg} {tr : TimedTrace} (h : accepts cfg t
     (hc : tr.cut = .unsubOut u0 u1) : (tr.dels.filter (fun e => decide (u1 < e.t0))).length ≤ 1 :=
   accepts_silent_outside h hc
 
+/-- silent after context cancellation, as a count: a stream that keeps delivering is not accepted -/
+theorem accepted_silent_cancel {cfg : Cfg} {tr : TimedTrace} (h : accepts cfg tr = true) {c0 c1 : Nat}
+    (hc : tr.cut = .cancel c0 c1) :
+    lateCount c1 tr.dels ≤ cancelSlack + 2 + (tr.emits.filter (fun e => decide (c1 < e.t1))).length :=
+  accepts_silent_cancel h hc
+
+/-- what the seeded change C16-A produces (BufferWithTimeOrCount whose ticker no longer sees the
+    cancellation: an empty buffer every period, for ever) is rejected as soon as enough of it is seen -/
+theorem keeps_emitting_after_cancel_rejected :
+    ¬ Clause { op := .bufferWithTimeOrCount, d := 2, n := 2 }
+      { sub := 0, emits := [], cut := .cancel 3 3,
+        dels := (List.range 14).map (fun k => ⟨2 * (k + 1), 2 * (k + 1), .buf []⟩) } := by decide
+
 theorem accepted_delay {cfg : Cfg} {tr : TimedTrace} (hop : cfg.op = .delay) (h : accepts cfg tr = true)
     {k : Nat} {dl : Ev} (hk : tr.dels[k]? = some dl) :
     ∃ e : Ev, tr.emits[k]? = some e ∧ dl.n = e.n ∧ e.t0 + cfg.d ≤ dl.t0 := accepts_delay hop h hk
@@ -165,9 +185,9 @@ theorem accepted_sample {cfg : Cfg} {tr : TimedTrace} (hop : cfg.op = .sampleTim
   accepts_sample hop h hk v hv
 
 theorem accepted_buffer {cfg : Cfg} {tr : TimedTrace} (cnt : Option Nat)
-    (hop : OpAt cfg = BufferAt cnt cfg.d) (h : accepts cfg tr = true)
+    (hop : OpAt cfg = BufferAt cnt cfg.xorder cfg.d) (h : accepts cfg tr = true)
     {k : Nat} {dl : Ev} (hk : tr.dels[k]? = some dl) (vs : List Int) (hv : dl.n = .buf vs) :
-    (∀ v ∈ vs, ∃ j e, srcOf tr (.next v) = some (j, e) ∧ e.t0 ≤ dl.t0) ∧ Contiguous tr vs ∧ AfterEarlierBuffers tr k vs
+    (∀ v ∈ vs, ∃ j e, srcOf tr (.next v) = some (j, e) ∧ e.t0 ≤ dl.t0) ∧ Contiguous tr vs ∧ (cfg.xorder = true → AfterEarlierBuffers tr k vs)
       ∧ (∀ n, cnt = some n → vs.length ≤ n)
       ∧ tr.sub + (k + 1 - extraFlushes cnt tr dl.t0) * cfg.d ≤ dl.t0 :=
   accepts_buffer cnt hop h hk vs hv
@@ -197,6 +217,22 @@ theorem buffer_window_witness :
     bufferMicro [] none none [.src 1, .take true, .src 2, .src 3, .take false, .send false, .send true]
       = [[2, 3], [1]] := buffer_unlock_then_emit_witness
 
+/-- a trace OBSERVED on the unchanged real code (quick run, seed 5, case 23: `BufferWithTimeOrCount(2, 2ms)`
+    over a burst 1..5 then Complete; the source's first call was held up across the first tick):
+    `[2,3]` is delivered before `[1]`. It violates the clause only through the order across buffers —
+    exactly the class of the known finding. -/
+def observedWindowTrace : TimedTrace :=
+  { sub := 14622, cut := .none
+    emits := [⟨14979, 17893, .next 1⟩, ⟨17894, 17894, .next 2⟩, ⟨17895, 17898, .next 3⟩, ⟨17898, 17899, .next 4⟩,
+              ⟨17899, 17908, .next 5⟩, ⟨17910, 17914, .complete⟩]
+    dels := [⟨17897, 17897, .buf [2, 3]⟩, ⟨17900, 17900, .buf [1]⟩, ⟨17906, 17906, .buf [4, 5]⟩,
+             ⟨17911, 17911, .buf []⟩, ⟨17911, 17911, .complete⟩] }
+
+theorem buffer_window_observed :
+    ¬ Clause { op := .bufferWithTimeOrCount, d := 2000, n := 2 } observedWindowTrace
+    ∧ Clause { op := .bufferWithTimeOrCount, d := 2000, n := 2, xorder := false } observedWindowTrace := by
+  constructor <;> decide
+
 end Ro.C16
 
 #print axioms Ro.C16.delay_never_early
@@ -221,6 +257,8 @@ end Ro.C16
 #print axioms Ro.C16.accepted_grammar
 #print axioms Ro.C16.accepted_silent_inside
 #print axioms Ro.C16.accepted_silent_outside
+#print axioms Ro.C16.accepted_silent_cancel
+#print axioms Ro.C16.keeps_emitting_after_cancel_rejected
 #print axioms Ro.C16.accepted_delay
 #print axioms Ro.C16.accepted_delayEach
 #print axioms Ro.C16.accepted_timeout
@@ -235,3 +273,4 @@ end Ro.C16
 #print axioms Ro.C16.intervalWithInitial_zero_rejected
 #print axioms Ro.C16.intervalWithInitial_race_witness
 #print axioms Ro.C16.buffer_window_witness
+#print axioms Ro.C16.buffer_window_observed
